@@ -185,8 +185,12 @@ def hostile_op(rng, w, conv):
             val = rng.choice([0, 1, 2, 3, 4, 6, 7, 14, 15, 32, 127, 128, 200, 254, 255, rng.randrange(256)])
             muts.append("%d=%d" % (off, val))
         return "j%s%d:%s" % (w, rng.randrange(0, 12), ",".join(muts))
-    n = rng.choice([0, 1, 23, 24, 25, 28, 31, 40, 100, rng.randrange(0, 200)])
+    n = rng.choice([0, 1, 4, 12, 16, 23, 23, 24, 25, 28, 31, 40, 100, rng.randrange(0, 200)])
     b = bytearray(rng.randrange(256) for _ in range(n))
+    if 4 <= n < 24 and rng.random() < 0.85:
+        # a datagram cut short inside the header, with the right conversation number (both entry points must drop it: the agent hands
+        # datagrams over as a 24-byte header buffer plus a body buffer, whose length would be negative here)
+        b[0:4] = struct.pack(">I", conv)
     if n >= 24 and rng.random() < 0.9:
         b[0:4] = struct.pack(">I", conv if rng.random() < 0.85 else rng.randrange(1 << 32))
         b[12] = 0
